@@ -540,6 +540,25 @@ class Origins:
             gens = {id(g) for g in scope.generators}
             inner = [b for b in out if b[0] == "elem" and any(isinstance(g, ast.comprehension) and id(g) in gens and g.iter is b[1] for g in scope.generators)]
             return inner or out
+        if have_use and len(out) > 1:
+            # inside the body of the loop that binds the variable, the variable holds an element of *that* loop
+            # (two loops that reuse one variable name are two variables)
+            loop = None
+            prev = use
+            for a in ancestors(use):
+                if a is f.node:
+                    break
+                if isinstance(a, (ast.For, ast.AsyncFor)) and any(isinstance(x, ast.Name) and x.id == name for x in ast.walk(a.target)) and any(prev is st_ for st_ in a.body):
+                    loop = a
+                    break
+                prev = a
+            if loop is not None:
+                body_nodes = {id(x) for st_ in loop.body for x in ast.walk(st_)}
+                rebound = [x for st_ in loop.body for x in ast.walk(st_) if isinstance(x, ast.Name) and x.id == name and isinstance(x.ctx, ast.Store)]
+                if not rebound:
+                    own = [b for b in out if b[0] == "elem" and b[1] is loop.iter]
+                    if own:
+                        return own
         return out
 
     def value(self, f: FuncInfo, e: ast.expr, depth: int = 0, seen: frozenset = frozenset(), pos: tuple = ()) -> list[Leaf]:
@@ -908,6 +927,9 @@ class Origins:
                     return out
                 if nm == "map" and len(c.args) == 2:
                     fn = c.args[0]
+                    if isinstance(fn, ast.Attribute) and fn.attr == "format" and _const_str(fn.value) is not None and not pos:
+                        # map("{}.".format, xs): every element is the constant format applied to an element of xs
+                        return [(f, ast.Call(func=fn, args=[ast.Starred(value=c.args[1], ctx=ast.Load())], keywords=[]), "value")]
                     lf = getattr(fn, "_func", None) if isinstance(fn, ast.Lambda) else None
                     if lf is not None:
                         return self.value(lf, fn.body, d, seen, pos)
@@ -1449,7 +1471,7 @@ def _site_facts(repo: Repo, f: FuncInfo, node: ast.AST, other: str, assume_not_n
 
     from .common import copy_prop, guard_formula
 
-    facts = [guard_formula(f, node)]
+    facts = [_guard(f, node)]
     others = {other}
     if not isinstance(f.node, ast.Lambda):
         sel = _selected_from(repo, f, other)
@@ -1694,6 +1716,72 @@ def _user_regex(repo: Repo, f: FuncInfo, pat: ast.expr) -> bool:
     return True
 
 
+def _pattern_pieces(repo: Repo, f: FuncInfo, pat: ast.expr, depth: int = 0) -> tuple[bool, bool] | None:
+    """(a name enters the pattern un-escaped, a name enters it through re.escape); None if the construction cannot be followed.
+    The flow tags cannot tell `"|".join(map(re.escape, names))` from `"|".join(names)`: collections of filters carry the tag NAME
+    into whatever is built from them."""
+    if depth > 6:
+        return None
+    fl = name_flow(repo)
+    raw = esc = False
+
+    def merge(r):
+        nonlocal raw, esc
+        if r is None:
+            return False
+        raw, esc = raw or r[0], esc or r[1]
+        return True
+
+    e = pat
+    if isinstance(e, ast.Constant):
+        return False, False
+    if isinstance(e, ast.JoinedStr):
+        for v in e.values:
+            if isinstance(v, ast.FormattedValue) and not merge(_pattern_pieces(repo, f, v.value, depth + 1)):
+                return None
+        return raw, esc
+    if isinstance(e, ast.BinOp) and isinstance(e.op, (ast.Add, ast.Mod)):
+        parts = [e.left, *(e.right.elts if isinstance(e.op, ast.Mod) and isinstance(e.right, ast.Tuple) else [e.right])]
+        for x in parts:
+            if not merge(_pattern_pieces(repo, f, x, depth + 1)):
+                return None
+        return raw, esc
+    if isinstance(e, ast.Call):
+        fq = repo.resolve_name(f.module, e.func) or "" if isinstance(e.func, (ast.Name, ast.Attribute)) else ""
+        if fq == "re.escape":
+            return False, True
+        if fq == "re.compile" and e.args:
+            return _pattern_pieces(repo, f, e.args[0], depth + 1)
+        if isinstance(e.func, ast.Attribute) and e.func.attr == "format" and _const_str(e.func.value) is not None:
+            for x in [*e.args, *[k.value for k in e.keywords]]:
+                if not merge(_pattern_pieces(repo, f, x, depth + 1)):
+                    return None
+            return raw, esc
+        if isinstance(e.func, ast.Attribute) and e.func.attr == "join" and _const_str(e.func.value) is not None and len(e.args) == 1:
+            for g, x, kind in origins(repo).elements(f, e.args[0]):
+                if kind != "value" or not merge(_pattern_pieces(repo, g, x, depth + 1)):
+                    return None
+            return raw, esc
+        if isinstance(e.func, ast.Name) and e.func.id == "str" and len(e.args) == 1:
+            return _pattern_pieces(repo, f, e.args[0], depth + 1)
+    if isinstance(e, (ast.Name, ast.Attribute, ast.Subscript, ast.Call, ast.IfExp)):
+        leaves = origins(repo).value(f, e)
+        if len(leaves) == 1 and leaves[0][1] is e:
+            tags = set(fl.tags(e))
+            if "NAME" in tags:
+                return True, False
+            return False, "ESC:NAME" in tags
+        for g, x, kind in leaves:
+            if kind != "value":
+                return None
+            if x is e:
+                return None
+            if not merge(_pattern_pieces(repo, g, x, depth + 1)):
+                return None
+        return raw, esc
+    return None
+
+
 # --------------------------------------------------------------------------- cutting a name at an index
 
 
@@ -1709,10 +1797,26 @@ def _strip_offset(e: ast.expr) -> tuple[ast.expr, int | None]:
     return e, 0
 
 
-def _loop_binding(f: FuncInfo, name: str):
-    """(target, iter, owner) of the for statement / comprehension generator that binds `name`, if it is bound exactly once."""
+def _loop_binding(f: FuncInfo, name: str, use: ast.AST | None = None):
+    """(target, iter, owner) of the for statement / comprehension generator that binds `name` - the one enclosing `use`, or the only one."""
     if isinstance(f.node, ast.Lambda):
         return None
+    if use is not None:
+        try:
+            prev = use
+            for a in ancestors(use):
+                if a is f.node:
+                    break
+                if isinstance(a, (ast.ListComp, ast.SetComp, ast.GeneratorExp, ast.DictComp)):
+                    for g in a.generators:
+                        if any(isinstance(x, ast.Name) and x.id == name for x in ast.walk(g.target)):
+                            return g.target, g.iter, g
+                if isinstance(a, (ast.For, ast.AsyncFor)) and any(isinstance(x, ast.Name) and x.id == name for x in ast.walk(a.target)) and any(prev is st_ for st_ in a.body):
+                    if not any(isinstance(x, ast.Name) and x.id == name and isinstance(x.ctx, ast.Store) for st_ in a.body for x in ast.walk(st_)):
+                        return a.target, a.iter, a
+                prev = a
+        except Exception:  # noqa: BLE001
+            pass
     stores = [n for n in own_nodes(f.node) if isinstance(n, ast.Name) and n.id == name and isinstance(n.ctx, ast.Store)]
     if len(stores) != 1 or name in f.param_names:
         return None
@@ -1818,7 +1922,7 @@ def _index_cut(repo: Repo, f: FuncInfo, node: ast.Subscript, bound: ast.expr, is
             return "unsafe", f"`{norm(node, 60)}`: {core.func.attr}('.') is -1 for a name without separator, the slice then cuts off its last character - the name is walked through its raw string prefixes"
         return "unknown", f"`{norm(node, 60)}`: offset {off} from the separator"
     if isinstance(core, ast.Name) and off is not None:
-        lb = _loop_binding(f, core.id)
+        lb = _loop_binding(f, core.id, core if parent(core) is not None else node)
         if lb is not None:
             tgt, it, owner = lb
             v = _positions_of(repo, f, node, core.id, tgt, it, hay, off, depth=0)
@@ -1985,6 +2089,8 @@ def _expand_names(repo: Repo, f: FuncInfo, e: ast.AST, depth: int = 0):
                 return rec(v, d + 1)
         if isinstance(x, (ast.Lambda, ast.ListComp, ast.SetComp, ast.DictComp, ast.GeneratorExp)):
             return _clone(x)
+        if isinstance(x, ast.NamedExpr):
+            return rec(x.value, d)
         if isinstance(x, ast.Name) and isinstance(x.ctx, ast.Load) and not _is_local(f, x.id) and (f.outer is None or not _is_local(f.outer, x.id)):
             c = _const_str(_module_constant(repo, f, x.id))
             if c is not None:
@@ -2142,6 +2248,102 @@ def _is_remainder_def(repo: Repo, f: FuncInfo, st: ast.AST, H: str, N: str) -> b
     return t == rest or t.startswith(rest + ".partition(") or t.startswith(rest + "[") or t in (f"len({N})", f"len({H})") or t.startswith(f"{H}.removeprefix({N})")
 
 
+def _guard(f: FuncInfo, node: ast.AST):
+    """guard_formula, completed for conditions that bind a name with `:=`.
+
+    core/cfg.py drops a branch condition as soon as something it mentions is (re)bound - also when the binding is a walrus inside
+    the very condition (`if not m.startswith(p := x.rstrip(".")): return False`), which then is missing on the paths behind it. A
+    walrus target that is stored nowhere else has one value: the condition is sound to keep."""
+    from core.cfg import always_exits
+    from core.guards import f_and, f_not, to_formula
+
+    from .common import copy_prop, guard_formula
+
+    base = guard_formula(f, node)
+    if isinstance(f.node, ast.Lambda):
+        return base
+    walrus = [x for x in own_nodes(f.node) if isinstance(x, ast.NamedExpr) and isinstance(x.target, ast.Name)]
+    if not walrus:
+        return base
+    stores: dict[str, int] = {}
+    for x in own_nodes(f.node):
+        if isinstance(x, ast.Name) and isinstance(x.ctx, ast.Store):
+            stores[x.id] = stores.get(x.id, 0) + 1
+    extra = []
+    subst = copy_prop(f)
+    child = node
+    for a in ancestors(node):
+        for fld in ("body", "orelse", "finalbody"):
+            blk = getattr(a, fld, None)
+            if isinstance(blk, list) and any(child is st_ for st_ in blk):
+                for st_ in blk:
+                    if st_ is child:
+                        break
+                    if isinstance(st_, ast.If):
+                        ws = [w for w in ast.walk(st_.test) if isinstance(w, ast.NamedExpr) and isinstance(w.target, ast.Name)]
+                        if ws and all(stores.get(w.target.id) == 1 for w in ws):
+                            if always_exits(st_.body) and not (st_.orelse and always_exits(st_.orelse)):
+                                extra.append(f_not(to_formula(st_.test, subst)))
+                            elif st_.orelse and always_exits(st_.orelse) and not always_exits(st_.body):
+                                extra.append(to_formula(st_.test, subst))
+        if isinstance(a, ast.If) and a is not node:
+            ws = [w for w in ast.walk(a.test) if isinstance(w, ast.NamedExpr) and isinstance(w.target, ast.Name)]
+            if ws and all(stores.get(w.target.id) == 1 for w in ws):
+                if any(child is st_ for st_ in a.body):
+                    extra.append(to_formula(a.test, subst))
+                elif any(child is st_ for st_ in a.orelse):
+                    extra.append(f_not(to_formula(a.test, subst)))
+        if a is f.node:
+            break
+        child = a
+    return f_and([base, *extra]) if extra else base
+
+
+def _match_decides(repo: Repo, f: FuncInfo, node: ast.AST, hay_e: ast.expr, needle_e: ast.expr) -> bool:
+    """`node` sits in a `case` of a match statement over the character after the prefix (`match rest[:1]: case "" | ".": .. case _: ..`):
+    the case patterns are the test of the next character."""
+    case = None
+    for a in ancestors(node):
+        if a is f.node:
+            return False
+        if isinstance(a, ast.match_case):
+            case = a
+        elif isinstance(a, ast.Match) and case is not None:
+            H, N = _canon(repo, f, hay_e), _canon(repo, f, needle_e)
+
+            def consts(pat) -> set[str] | None:
+                if isinstance(pat, ast.MatchValue) and _const_str(pat.value) is not None:
+                    return {_const_str(pat.value)}
+                if isinstance(pat, ast.MatchOr):
+                    out: set[str] = set()
+                    for q in pat.patterns:
+                        c = consts(q)
+                        if c is None:
+                            return None
+                        out |= c
+                    return out
+                return None
+
+            def kind_of(c: ast.match_case) -> str:
+                cs = consts(c.pattern)
+                if cs is None or c.guard is not None:
+                    return ""
+                probe = ast.Compare(left=a.subject, ops=[ast.In()], comparators=[ast.Tuple(elts=[ast.Constant(value=x) for x in sorted(cs)], ctx=ast.Load())])
+                pol, kind = _evidence(repo, f, _expand_names(repo, f, probe), H, N)
+                if pol > 0:
+                    return kind
+                if cs == {""}:
+                    pol, kind = _evidence(repo, f, _expand_names(repo, f, ast.Compare(left=a.subject, ops=[ast.Eq()], comparators=[ast.Constant(value="")])), H, N)
+                    return "empty" if pol > 0 or " ".join(ast.unparse(_expand_names(repo, f, a.subject)).split()) in (f"{H}[len({N}):][:1]", f"{H}[len({N}):len({N}) + 1]") else ""
+                return ""
+
+            if kind_of(case):
+                return True
+            wildcard = isinstance(case.pattern, ast.MatchAs) and case.pattern.pattern is None and case.guard is None
+            return wildcard and any(kind_of(c) in ("dot", "both") for c in a.cases if c is not case)
+    return False
+
+
 def _raw_test_is_guarded(repo: Repo, f: FuncInfo, test: ast.expr, hay_e: ast.expr, needle_e: ast.expr) -> str | None:
     """A raw prefix test `test` (truthy = H starts with the plain string N) is harmless if
       (a) the conditions on the path to it already are boundary evidence, or
@@ -2150,12 +2352,12 @@ def _raw_test_is_guarded(repo: Repo, f: FuncInfo, test: ast.expr, hay_e: ast.exp
     Returns the reason, or None."""
     from core.guards import atoms_of, f_and, f_not, f_or, implies, to_formula
 
-    from .common import copy_prop, guard_formula
+    from .common import copy_prop
 
     if isinstance(f.node, ast.Lambda) and not isinstance(test, ast.expr):
         return None
     try:
-        g0 = guard_formula(f, test)
+        g0 = _guard(f, test)
         if _has_evidence(repo, f, g0, hay_e, needle_e):
             return "the next character is known to be the separator (or absent) on every path to this prefix test"
         subst = copy_prop(f)
@@ -2171,7 +2373,7 @@ def _raw_test_is_guarded(repo: Repo, f: FuncInfo, test: ast.expr, hay_e: ast.exp
             top = parent(top)
         value_stmt = isinstance(st, (ast.Return, ast.Assign, ast.AnnAssign)) and getattr(st, "value", None) is top or isinstance(f.node, ast.Lambda)
         if value_stmt or (isinstance(parent(top), ast.Call) and top in parent(top).args) or isinstance(parent(top), (ast.ListComp, ast.GeneratorExp, ast.SetComp, ast.keyword)):
-            whole = f_and([guard_formula(f, top), to_formula(top, subst)])
+            whole = f_and([_guard(f, top), to_formula(top, subst)])
             goal = _evidence_goal(repo, f, whole, hay_e, needle_e)
             if goal is not None and implies(whole, f_or([f_not(raw), goal])):
                 return "the value this raw prefix test is part of is only true when the next character is the separator or absent"
@@ -2204,12 +2406,14 @@ def _raw_test_is_guarded(repo: Repo, f: FuncInfo, test: ast.expr, hay_e: ast.exp
         for e_ in effects:
             if any(x is test for x in ast.walk(e_)):
                 continue  # the test itself is evaluated inside: covered by (b)
-            ge = guard_formula(f, e_)
+            ge = _guard(f, e_)
             if not (raw_atoms <= atoms_of(ge)) or not implies(ge, raw):
                 continue
             if isinstance(e_, ast.stmt) and _is_remainder_def(repo, f, e_, H, N):
                 continue
             dependent += 1
+            if _match_decides(repo, f, e_, hay_e, needle_e):
+                continue
             whole = ge
             if isinstance(e_, ast.Return) and e_.value is not None:
                 v = to_formula(e_.value, subst)
@@ -2233,7 +2437,6 @@ def _raw_test_is_guarded(repo: Repo, f: FuncInfo, test: ast.expr, hay_e: ast.exp
 def _remainder_uses(repo: Repo, f: FuncInfo, n: ast.AST, hay_e: ast.expr, needle_e: ast.expr) -> tuple[bool, bool]:
     """How the string left after cutting len(N) characters off H is used: (every use is a boundary test itself,
     every use is such a test or guarded by one). (False, False) if it escapes."""
-    from .common import guard_formula
 
     if isinstance(f.node, ast.Lambda):
         return False, False
@@ -2250,6 +2453,10 @@ def _remainder_uses(repo: Repo, f: FuncInfo, n: ast.AST, hay_e: ast.expr, needle
         if not single_store(st.targets[0].id):
             return False, False
         uses = loads(st.targets[0].id)
+    elif isinstance(parent(n), ast.NamedExpr) and parent(n).value is n and isinstance(parent(n).target, ast.Name):
+        if not single_store(parent(n).target.id):
+            return False, False
+        uses = [parent(n), *loads(parent(n).target.id)]
     else:
         uses = [n]
     if not uses:
@@ -2270,6 +2477,13 @@ def _remainder_uses(repo: Repo, f: FuncInfo, n: ast.AST, hay_e: ast.expr, needle
                 is_test = True
                 break
         p = parent(u_)
+        ust = stmt_of(u_)
+        if isinstance(ust, ast.Match) and any(x is u_ for x in ast.walk(ust.subject)):
+            tested = True  # the subject of a match statement: the cases test it
+            continue
+        if _match_decides(repo, f, u_, hay_e, needle_e):
+            tested = True
+            continue
         if is_test or (isinstance(p, ast.UnaryOp) and isinstance(p.op, ast.Not)) or isinstance(p, (ast.If, ast.While, ast.BoolOp)) or (isinstance(p, ast.IfExp) and p.test is u_) or (isinstance(p, ast.Call) and _call_name(p) in ("len", "bool")):
             tested = True
             continue
@@ -2291,7 +2505,7 @@ def _remainder_uses(repo: Repo, f: FuncInfo, n: ast.AST, hay_e: ast.expr, needle
             return False, False
         only_tests = False
         try:
-            if not _has_evidence(repo, f, guard_formula(f, u_), hay_e, needle_e):
+            if not _has_evidence(repo, f, _guard(f, u_), hay_e, needle_e):
                 guarded = False
         except AnalysisError:
             guarded = False
@@ -2417,7 +2631,7 @@ def _relation_predicate(repo: Repo, g: FuncInfo, H: str, N: str, depth: int = 0)
     """The truthy result of `g` implies that `H` (a parameter or `self.<field>`, text in g's terms) is `N` (a parameter) or below it."""
     from core.guards import atom as mk, atoms_of, f_and, f_not, f_or, implies, to_formula
 
-    from .common import copy_prop, guard_formula
+    from .common import copy_prop
 
     key = ("relpred", id(repo), g.fq, H, N)
     if key in _cache:
@@ -2431,7 +2645,7 @@ def _relation_predicate(repo: Repo, g: FuncInfo, H: str, N: str, depth: int = 0)
             ok = bool(rets) and h_e is not None and n_e is not None
             subst = copy_prop(g)
             for r in rets if ok else []:
-                F = f_and([guard_formula(g, r), to_formula(r.value, subst)])
+                F = f_and([_guard(g, r), to_formula(r.value, subst)])
                 if F == ("const", False):
                     continue
                 safe_a, raw_a = _relation_atoms(repo, g, F, H, {N})
@@ -3121,6 +3335,10 @@ def _scan(repo: Repo) -> list[Site]:
                     if reviewed:
                         sites.append(Site(f, n, fq, n.args[1] if len(n.args) > 1 else None, pat, True, "reviewed", reviewed))
                         continue
+                    pieces = _pattern_pieces(repo, f, pat) if "NAME" in ptags else None
+                    all_escaped = pieces is not None and not pieces[0] and pieces[1]
+                    if all_escaped:
+                        ptags = (ptags - {"NAME"}) | {"ESC:NAME"}
                     if "NAME" in ptags:
                         sites.append(Site(f, n, fq, n.args[-1], pat, True, "unsafe", f"`{norm(n, 80)}`: a regular expression is built from an un-escaped module name ('.' matches any character; no component boundary)"))
                     elif "ESC:NAME" in ptags:
